@@ -169,6 +169,7 @@ class Executor:
         self.solver_s = 0.0
         self.blocks_executed = 0
         self.sym_counter = 0
+        self.havoc_log = set()
         self.havoc_unknown_calls = False   # slices: unmodelled callees return under-constrained values
         self.havoc_calls = 0
         self.inline_in_slices = lambda fn: False
@@ -1060,6 +1061,7 @@ class Executor:
                 # arithmetic slice: the callee's result is under-constrained
                 dty = self.subst(fr, fr.fn.decls.get(t.a["dest"].local, "()")) if not t.a["dest"].proj else "?"
                 self.havoc_calls += 1
+                self.havoc_log.add(func_s[:160])
                 if t.a["target"] is None:
                     raise Infeasible()      # diverging unknown call: path ends
                 hv = Havoc("ret", f"ret_{func_s.split('::')[-1][:24]}").field(self.havoc_calls, dty) if dty != "()" else UNIT
